@@ -46,6 +46,9 @@ func GenerateFixpoint(p *Program, fn *ssa.Function, mode GenMode, dropInv map[st
 		g := NewGen(p, fn, mode, prev)
 		g.dropped = dropInv
 		g.scanRes = scan
+		for c, so := range scan.compSort {
+			g.compSort[c] = so // the loop-head havoc needs every component's sort before its first use
+		}
 		g.Generate()
 		var cs []string
 		for c := range g.compSort {
@@ -60,6 +63,9 @@ func GenerateFixpoint(p *Program, fn *ssa.Function, mode GenMode, dropInv map[st
 	g := NewGen(p, fn, mode, prev)
 	g.dropped = dropInv
 	g.scanRes = scan
+	for c, so := range scan.compSort {
+		g.compSort[c] = so
+	}
 	g.Generate()
 	return g
 }
@@ -475,6 +481,9 @@ func (g *Gen) enterLoop(li *loopInfo, h Heap, preds []*ssa.BasicBlock, conds []s
 		}
 		seen[c] = true
 		if _, ok := g.compSort[c]; !ok {
+			if !g.scan {
+				g.unsupported("loop%d modifies component %s of unknown sort", li.ordinal, c)
+			}
 			continue
 		}
 		n := qsym(fmt.Sprintf("%s@loop%d", c, li.ordinal))
@@ -614,6 +623,61 @@ func (g *Gen) autoCandidates(li *loopInfo, entryVals map[*ssa.Phi]Val) []autoCan
 				lo := g.constVal(c).T
 				out = append(out, autoCand{id: fmt.Sprintf("loop%d:%s>=%s", li.ordinal, phiName(phi), strings.Trim(lo, "()")),
 					expr: func(pv func(*ssa.Phi) Val, h Heap) string { return sx("<=", lo, pv(ph).T) }})
+			}
+		}
+	}
+	// upper-bound candidates from comparisons inside the loop: p <= Y and p < Y for a head phi p (or p+c) compared with a loop-invariant Y
+	headPhi := func(v ssa.Value) *ssa.Phi {
+		if ph, ok := v.(*ssa.Phi); ok && ph.Block() == b {
+			return ph
+		}
+		if bo, ok := v.(*ssa.BinOp); ok && (bo.Op == token.ADD || bo.Op == token.SUB) {
+			if ph, ok := bo.X.(*ssa.Phi); ok && ph.Block() == b {
+				if _, isC := bo.Y.(*ssa.Const); isC {
+					return ph
+				}
+			}
+		}
+		return nil
+	}
+	invariantVal := func(v ssa.Value) bool {
+		switch x := v.(type) {
+		case *ssa.Const, *ssa.Parameter:
+			return true
+		case ssa.Instruction:
+			return x.Block() != nil && !li.body[x.Block()] && x.Block().Dominates(b)
+		}
+		return false
+	}
+	seenC := map[string]bool{}
+	for blk := range li.body {
+		for _, ins := range blk.Instrs {
+			bo, ok := ins.(*ssa.BinOp)
+			if !ok {
+				continue
+			}
+			var ph *ssa.Phi
+			var y ssa.Value
+			switch bo.Op {
+			case token.LSS, token.LEQ:
+				ph, y = headPhi(bo.X), bo.Y
+			case token.GTR, token.GEQ:
+				ph, y = headPhi(bo.Y), bo.X
+			default:
+				continue
+			}
+			if ph == nil || !invariantVal(y) || g.sortOf(ph.Type()) != SInt || g.sortOf(y.Type()) != SInt {
+				continue
+			}
+			yv := y
+			for _, op := range []string{"<=", "<"} {
+				id := fmt.Sprintf("loop%d:%s%s%s", li.ordinal, phiName(ph), op, y.Name())
+				if seenC[id] {
+					continue
+				}
+				seenC[id] = true
+				opc, phc := op, ph
+				out = append(out, autoCand{id: id, expr: func(pv func(*ssa.Phi) Val, h Heap) string { return sx(opc, pv(phc).T, g.val(yv).T) }})
 			}
 		}
 	}
